@@ -42,6 +42,9 @@ const (
 
 var cfgOnce sync.Once
 
+// SetConfig sets the bech32 prefixes (idempotent).
+func SetConfig() { setConfig() }
+
 func setConfig() {
 	cfgOnce.Do(func() {
 		testutil.SetSDKConfig()
@@ -192,3 +195,26 @@ func OrbiterAddr() sdk.AccAddress { return core.ModuleAddress }
 
 // DustAddr is the dust collector module account address.
 func DustAddr() sdk.AccAddress { return authtypes.NewModuleAddress(core.DustCollectorName) }
+
+// Branch returns a cached context on top of the committed state and its write function.
+func (s *Sim) Branch() (sdk.Context, func()) { return s.Ctx.CacheContext() }
+
+// Mint creates coins out of thin air on addr (through the transfer module account, a minter).
+func (s *Sim) Mint(ctx sdk.Context, addr sdk.AccAddress, coins sdk.Coins) error {
+	if err := s.App.BankKeeper.MintCoins(ctx, transfertypes.ModuleName, coins); err != nil {
+		return err
+	}
+	return s.App.BankKeeper.SendCoinsFromModuleToAccount(ctx, transfertypes.ModuleName, addr, coins)
+}
+
+// MintUnchecked credits addr even when it is a blocked module account (keeper-level send).
+func (s *Sim) MintUnchecked(ctx sdk.Context, addr sdk.AccAddress, coins sdk.Coins) error {
+	if err := s.App.BankKeeper.MintCoins(ctx, transfertypes.ModuleName, coins); err != nil {
+		return err
+	}
+	return s.App.BankKeeper.SendCoins(ctx, authtypes.NewModuleAddress(transfertypes.ModuleName), addr, coins)
+}
+
+func (s *Sim) Bal(ctx sdk.Context, addr sdk.AccAddress, denom string) math.Int {
+	return s.App.BankKeeper.GetBalance(ctx, addr, denom).Amount
+}
